@@ -26,6 +26,7 @@ struct Member {
     store: EventuallyConsistentStore<FaultyStore>,
     inner: Arc<MemStore>,
     fail: Arc<AtomicBool>,
+    delay: Arc<std::sync::atomic::AtomicU64>,
 }
 
 fn free_addr() -> std::net::SocketAddr {
@@ -53,8 +54,9 @@ async fn start_cluster(layout: &[u64]) -> Vec<Member> {
         let inner = Arc::new(MemStore::default());
         let fs = FaultyStore::on(inner.clone());
         let fail = fs.fail_all.clone();
+        let delay = fs.delay_ms.clone();
         let store = node.add_extension(EventuallyConsistentStoreExtension::new(fs)).await.expect("extension");
-        members.push(Member { id: i as u8 + 1, dc: *dc, _node: node, store, inner, fail });
+        members.push(Member { id: i as u8 + 1, dc: *dc, _node: node, store, inner, fail, delay });
     }
     let ids: Vec<u8> = members.iter().map(|m| m.id).collect();
     for m in &members {
@@ -91,6 +93,8 @@ pub async fn record() {
         .map(|l| l.split(',').map(|x| x.parse().unwrap()).collect())
         .collect();
     let mut f = std::io::BufWriter::new(std::fs::File::create(&out).expect("create trace"));
+    let slow_ms: u64 = arg_or("--slow-ms", "2600").parse().unwrap();
+    let slow_every: usize = arg_or("--slow-every", "2").parse().unwrap();
     let mut next_id = 1000u64;
     let mut calls = 0u64;
     let mut later_checks = 0u64;
@@ -101,10 +105,32 @@ pub async fn record() {
         let handle = issuer.store.handle_with_keyspace(KS);
         let others: Vec<usize> = (1..n).collect();
         let mut pending_later: Vec<(u64, bool)> = vec![];
+        // every level x kind x subset of refusing replicas; then, for a few level/kind combinations, one replica that
+        // is merely slow (its storage answers after `slow_ms`, longer than the 2 s the error type advertises)
+        let mut specs: Vec<(&str, &str, Vec<usize>, Vec<usize>)> = vec![];
         for lv in ["None", "One", "Two", "Three", "Quorum", "LocalQuorum", "All", "EachQuorum"] {
             for kind in ["put", "put_many", "del", "del_many"] {
                 for mask in 0..(1u32 << others.len()) {
                     let failing: Vec<usize> = others.iter().cloned().filter(|o| mask & (1 << (o - 1)) != 0).collect();
+                    specs.push((lv, kind, failing, vec![]));
+                }
+            }
+        }
+        if slow_ms > 0 && !others.is_empty() {
+            let mut k = 0usize;
+            for lv in ["All", "Quorum", "EachQuorum", "One"] {
+                for kind in ["put", "del_many", "put_many", "del"] {
+                    k += 1;
+                    if k % slow_every != 0 {
+                        continue;
+                    }
+                    specs.push((lv, kind, vec![], vec![others[k % others.len()]]));
+                }
+            }
+        }
+        for (lv, kind, failing, slow) in specs {
+            {
+                {
                     let ids: Vec<u64> = if kind.ends_with("many") { vec![next_id, next_id + 1] } else { vec![next_id] };
                     next_id += 2;
                     let is_del = kind.starts_with("del");
@@ -114,6 +140,9 @@ pub async fn record() {
                     }
                     for o in &failing {
                         members[*o].fail.store(true, Ordering::SeqCst);
+                    }
+                    for o in &slow {
+                        members[*o].delay.store(slow_ms, Ordering::SeqCst);
                     }
                     let res = match kind {
                         "put" => handle.put(ids[0], format!("v-{}", ids[0]).into_bytes(), level(lv)).await,
@@ -150,6 +179,9 @@ pub async fn record() {
                     for o in &failing {
                         members[*o].fail.store(false, Ordering::SeqCst);
                     }
+                    for o in &slow {
+                        members[*o].delay.store(0, Ordering::SeqCst);
+                    }
                     let (result, responses, required, detail) = match &res {
                         Ok(()) => ("ok", 0, 0, String::new()),
                         Err(StoreError::ConsistencyError(ConsistencyError::ConsistencyFailure { responses, required, .. })) => ("failure", *responses, *required, String::new()),
@@ -159,6 +191,7 @@ pub async fn record() {
                     calls += 1;
                     writeln!(f, "{}", json!({"ev": "call", "layout": layout, "level": lv, "kind": kind,
                         "failing": failing.iter().map(|o| json!([members[*o].dc, members.iter().take(o + 1).filter(|x| x.dc == members[*o].dc).count()])).collect::<Vec<_>>(),
+                        "slow": slow.iter().map(|o| json!([members[*o].dc, members.iter().take(o + 1).filter(|x| x.dc == members[*o].dc).count()])).collect::<Vec<_>>(),
                         "result": result, "responses": responses, "required": required, "detail": detail,
                         "local": local_ok, "others": have, "ids": ids})).unwrap();
                     if result == "failure" && pending_later.len() < 6 {
